@@ -26,6 +26,7 @@ import DateutilVerif.Proofs.RRuleDaily
 import DateutilVerif.Proofs.RRuleMonoAll
 import DateutilVerif.Proofs.RRuleYM
 import DateutilVerif.Proofs.RRuleWeekly
+import DateutilVerif.Proofs.RRuleEaster
 
 namespace C01
 open RRule Cal RRule.Tables
@@ -79,6 +80,18 @@ theorem masks_are_dates (r : Rule) (y m : Int) (info : Info) (h : rebuild r y m 
   have hlen : info.yearlen ≤ 366 := by rw [f.yearlen]; unfold daysInYear; split <;> omega
   exact ⟨f.yearordinal, f.yearlen, mmask_date f i h0 h1, mdaymask_date f i h0 h1,
          nmdaymask_date f i h0 h1, wdaymask_date f i h0 (by omega)⟩
+
+/-- **the Easter mask on the supported class** (the complement of D-C01d): for every year 1583..4099
+    (where C19 ties `easter.easter` to Meeus/Jones/Butcher) and offsets −80..250, building the mask
+    raises nothing, no index wraps around, and index `j` is marked exactly when the date at `j` is
+    Easter Sunday of that year plus one of the offsets — all `yearlen + 7` indices.  (Mask lemma only:
+    BYEASTER is not yet part of the proved portion of `iter_eq_spec`.) -/
+theorem eastermask_marks_easter_offsets (byeaster : List Int) (y : Int) (hy1 : 1583 ≤ y) (hy2 : y ≤ 4099)
+    (hoff : ∀ o ∈ byeaster, -80 ≤ o ∧ o ≤ 250) :
+    ∃ mask, buildEastermask byeaster y (daysInYear y) (toOrdinal y 1 1) = .ok mask ∧
+      ∀ j, 0 ≤ j → j < daysInYear y + 7 →
+        Py.getIdx mask j = .ok (if (toOrdinal y 1 1 + j - Spec.RRule.easterOrd y) ∈ byeaster then 1 else 0) :=
+  eastermask_spec byeaster y hy1 hy2 hoff
 
 /-! ### 2. the constructor -/
 
